@@ -78,4 +78,12 @@ PROPS = {
         note="Whole-second lifetimes only (sub-second own lifetimes legitimately differ from their wire form). Hop-limit difference with one side 0 is a don't-care.",
         parts=[part("pairs", "internal/corerad", "TestVerifC12", shards={"quick": 2, "thorough": 16})],
     ),
+    "C05": dict(
+        level="exploration", engine="enum",
+        technique="exhaustive enumeration of all accepted whole-second (min,max) pairs x indices x extreme random draws through the real multicastDelay with a scripted random source; real multicast() loop run under a virtual clock",
+        text="All ~1.2M whole-second interval pairs the configuration accepts (range ends confirmed through the real parser for every max; quick tier: stride 7), min=max pairs and accepted fractional pairs, x 6 advertisement indices x 7 draws including 0 and range-1, go through the real multicastDelay; the result must be a positive whole number of seconds within [min,max] and <=16 s for the first three. The real loop is run under virtual time for 26 pairs x 3 seeds: waits equal multicastDelay's results, requests recur, and stop on cancellation.",
+        note="Random draws other than the 7 per pair are not covered (the function is monotone in the draw between them). 'Never spins' is checked only as 'consumes exactly one draw'. The loop part takes the PRNG seed from the virtual clock (3 seeds).",
+        parts=[part("delay", "internal/corerad", "TestVerifC05", shards={"quick": 4, "thorough": 16}),
+               part("loop", "internal/corerad", "TestVerifC05Loop")],
+    ),
 }
